@@ -777,3 +777,39 @@ fn c09_udp_specific_bind_second_datagram_keeps_order() {
     kani::cover!(!a, "another destination address: dropped");
 }
 }
+
+// @verif id=C15,C12 tier=quick role=bind_vs_stream timeout=900 desc=listener-bind-on-the-local-port-of-a-live-stream
+// C15: "an explicit listener bind is not blocked by an outgoing stream's local port" and "a port
+// becomes available again once its socket is dropped": with a live stream whose LOCAL port is P
+// (an outgoing connection, or a connection accepted from a listener that has since been dropped),
+// binding a listener on P succeeds; binding it a second time fails with AddrInUse; after the
+// listener is unbound the port can be bound again while the stream is still alive.
+crate::verif_proof! { unwind = 10;
+fn c15_listener_bind_is_not_blocked_by_a_stream_on_that_port() {
+    let mut tcp = Tcp::new(2);
+    let port: u16 = 50000;
+    let peer_port: u16 = kani::any();
+    let pair = SocketPair::new(SocketAddr::new(HOST_IP, port), SocketAddr::new(PEER_IP, peer_port));
+    let (rx, fc) = tcp.new_stream(pair);
+    assert!(tcp.stream_count() == 1);
+    let addr = SocketAddr::new(IpAddr::V4(Ipv4Addr::UNSPECIFIED), port);
+    let l = tcp.bind(addr);
+    assert!(l.is_ok(), "a live stream on the port does not block an explicit listener bind");
+    std::mem::forget(l);
+    let again = tcp.bind(addr);
+    match &again {
+        Err(e) => assert!(e.kind() == io::ErrorKind::AddrInUse),
+        Ok(_) => panic!("a second listener on the port must fail"),
+    }
+    std::mem::forget(again);
+    tcp.unbind(addr);
+    let third = tcp.bind(addr);
+    assert!(third.is_ok(), "the port is available again once the listener is dropped, stream or no stream");
+    std::mem::forget(third);
+    assert!(tcp.stream_count() == 1, "the stream is untouched by all of this");
+    kani::cover!(tcp.stream_count() == 1, "bind, refuse, unbind, bind again next to a live stream");
+    std::mem::forget(tcp);
+    std::mem::forget(rx);
+    std::mem::forget(fc);
+}
+}
